@@ -52,6 +52,8 @@ def generate(prop, rng):
             "tick_ns": rng.choice([1000, 1_000_000, 1_000_000_000]),
             "reflink": "enotsup",
             "perm_seed": rng.randrange(10**9),
+            # pool tasks as pre-empted threads (chunk reads are yield points) instead of inline
+            "pool_interleave": rng.random() < 0.6,
         },
         "contents": [gen.enc(b) for b in pool],
         "tree": tree,
@@ -74,7 +76,7 @@ def shrink_paths(sc):
 def simplify(sc):
     import copy
 
-    for k, v in {"jobs": 1, "tick_ns": 1_000_000}.items():
+    for k, v in {"jobs": 1, "tick_ns": 1_000_000, "pool_interleave": False}.items():
         if sc["cfg"].get(k) != v:
             c = copy.deepcopy(sc)
             c["cfg"][k] = v
@@ -99,6 +101,7 @@ def execute(sc, ctx):
     from simkit import executor
 
     cfg = sc["cfg"]
+    ctx.seam.pool_interleave = bool(cfg.get("pool_interleave"))
     thr = cfg.get("big_threshold")
     if thr is not None:
         for fn in (hbuild._build_files, hbuild._get_hashes):
